@@ -416,3 +416,5 @@ var vhIntVars = map[string]*int{
 	"vhNParts": &vhNParts, "vhDotSeg": &vhDotSeg, "vhWordMax": &vhWordMax, "vhNoGo": &vhNoGo,
 	"vhLineKind": &vhLineKind, "vhNOpts": &vhNOpts, "vhNTags": &vhNTags, "vhGapAt": &vhGapAt,
 }
+
+var vhScenarios = map[string]func(map[string]string) bool{}
